@@ -14,6 +14,24 @@ CLAIMED = {
         "translation); abstract hierarchy tables computed with issubclass/isinstance/hasattr; harness. No axioms.",
    technique="Coq proof by invariant over operation histories + model/implementation correspondence", design="§8 C16"),
 }
+CLAIMED["C02"] = dict(
+   text="Machine-checked proof (Coq): every strict validator of class Constraints is translated from utype/parser/rule.py on "
+        "each run (tools/py2coq.py -> coq/Gen/Constraints.v) and proved to accept exactly when its constraint holds in the "
+        "documented sense and to return its input (18 theorems incl. gt/ge/lt/le, length family, const, enum, unique_items, "
+        "multiple_of, max_digits, decimal_places, _parse_decimal); theorem C02_rule_exact lifts this to Rule.parse for every "
+        "constraint list and every value of the source class; C02_isinstance_agrees covers __instancecheck__.",
+   note="Trusted: Coq kernel; Base/PyPrim.v + PyOps.v (CPython operator semantics, validated by the gen-exec suite); the translator; "
+        "the hand model Model/Parse.v of Rule.parse/__instancecheck__ (tied by the rule-exact suite); regex engine is a parameter. "
+        "Legality of constraint sets (validate_constraints) is taken from the implementation, not modelled. No axioms.",
+   technique="Coq proofs over validators regenerated from source by a translator + model/implementation correspondence", design="§8 C02")
+CLAIMED["C03"] = dict(
+   text="Machine-checked proof (Coq), partial: for every lax validator (translated from source on each run) the output is a fixed "
+        "point and, on exact domains, satisfies the strict form (13 theorems); the max_digits half is refuted by a proved witness "
+        "(known finding). Idempotence of whole types is not yet a theorem: it is carried by the parse correspondence and an "
+        "idempotence oracle on the implementation.",
+   note="Trusted: as C02. Partial: containers/unions/data classes idempotence is checked by execution only (parse correspondence + "
+        "re-parse oracle), three known findings (lax max_digits carry, heterogeneous &, ^ output).",
+   technique="Coq proofs over lax validators regenerated from source + re-parse oracle and correspondence on the implementation", design="§8 C03")
 NOT_YET = {}
 for i in range(1, 21):
     pid = "C%02d" % i
